@@ -34,6 +34,9 @@ void yaep_free_tree (struct yaep_tree_node *root, void (*parse_free) (void *), v
 #ifndef INLEN
 #define INLEN 4
 #endif
+#ifndef WIDEN
+#define WIDEN 300
+#endif
 #ifndef LONGLEN
 #define LONGLEN 301
 #endif
@@ -168,6 +171,31 @@ template <class S> static std::string history (int k, const conf &c)
   return out;
 }
 
+/* grammar shapes that make the containers grow: n alternatives / a right-hand side of n symbols / names of n characters; the same object is redefined */
+static std::string wide_text; static std::vector<int> wide_in;
+static void wide_build (int shape, int n)
+{
+  char b[64]; wide_text.clear (); wide_in.clear ();
+  if (shape == 0)
+    { wide_text = "TERM"; for (int i = 0; i < n; i++) { snprintf (b, sizeof b, " t%d=%d", i, 1000 + i); wide_text += b; } wide_text += ";\nS :";
+      for (int i = 0; i < n; i++) { snprintf (b, sizeof b, "%s t%d # n%d (0)\n", i ? " |" : "", i, i % 7); wide_text += b; } wide_text += " ;\n"; wide_in.push_back (1000 + n - 1); }
+  else if (shape == 1)
+    { wide_text = "S :"; for (int i = 0; i < n; i++) wide_text += " 'a'"; snprintf (b, sizeof b, " 'b' # node (0 %d) ;\n", n); wide_text += b;
+      for (int i = 0; i < n; i++) wide_in.push_back ('a'); wide_in.push_back ('b'); }
+  else
+    { std::string x (n, 'x'), y (n, 'Y'); wide_text = "TERM " + x + "=7;\n" + y + " : " + x + " # 0 | " + y + " " + x + " # l (0 1) ;\n"; wide_in.assign (3, 7); }
+}
+template <class S> static std::string wide (int shape, int n, const conf &c)
+{
+  std::string res;
+  { S s; out.clear (); configure (s, c);
+    for (int step = 0; step < 4; step++)
+      { int sh = step == 0 || step == 3 ? shape : (shape + step) % 3, nn = step == 1 ? 3 : n;
+        wide_build (sh, nn); std::string keep = out; int rc = s.parse_grammar (1, wide_text.c_str ()); out = keep; put (" def=%ld ec=%ld ", rc, s.error_code ()); out += s.error_message ();
+        one_parse (s, c, wide_in); wide_in.push_back ('a'); one_parse (s, c, wide_in); }
+    res = out; }
+  return res;
+}
 static long cases, bad;
 static void compare (const char *family, const std::string &a, const std::string &b, const char *what)
 {
@@ -248,5 +276,12 @@ int main (void)
       compare ("long", with_description<CSide> (expr, 1, c, in), with_description<XSide> (expr, 1, c, in), "long input");
     }
   printf ("CASE cxx_long %ld %s inputs of %d tokens (sentence, two errors inside, error at the end) x 3 lookahead levels\n", cases - c0, bad > b0 ? "FAIL" : "OK", LONGLEN);
+  /* 6. grammar shapes around the growth points of the containers, with redefinition of the same object */
+  c0 = cases; b0 = bad;
+  { static const int N[] = {1, 2, 31, 63, 64, 65, 93, 97, 128, 129, 141, 147, 200, 257, WIDEN, 688, 700};
+    for (size_t i = 0; i < sizeof N / sizeof *N; i++) for (int shape = 0; shape < 3; shape++) for (int la = 0; la <= 2; la += 2)
+      { conf c = {la, 1, 0, 0, 3, la == 2}; char what[64]; snprintf (what, sizeof what, "shape %d n=%d la=%d", shape, N[i], la);
+        compare ("wide", wide<CSide> (shape, N[i], c), wide<XSide> (shape, N[i], c), what); } }
+  printf ("CASE cxx_wide %ld %s n alternatives / right-hand sides of n symbols / names of n characters (n up to %d, around the growth points of the containers), each object redefined three times\n", cases - c0, bad > b0 ? "FAIL" : "OK", WIDEN > 700 ? WIDEN : 700);
   return bad != 0;
 }
